@@ -112,30 +112,30 @@ theorem comp_ok (sem : Sem V) (lit : Nat → V) (hlit : ∀ n, sem.toAddr (lit n
 /-- **endless and long-running programs, labels removed**: every effect trace the source reaches is reached by the label-free
     code -/
 theorem compile_correct_running_stripped (sem : Sem V) (env : Env V) (lit : Nat → V) (hlit : ∀ n, sem.toAddr (lit n) = some n)
-    (hof : ∀ n, sem.toAddr (sem.ofNat n) = some n) (p : Stmt V) (hgood : Good sem (fun _ => False) p) (fuel : Nat) (σ σ' : SSt V)
-    (h : exec sem env (fun _ => .skip) fuel p σ = .timeout σ') :
+    (hof : ∀ n, sem.toAddr (sem.ofNat n) = some n) (lo : Nat) (hlo : lo ≤ stackSize) (p : Stmt V) (hgood : Good sem lo (fun _ => False) p) (fuel : Nat) (σ σ' : SSt V)
+    (hsp : σ.regs Special.sp = sem.ofNat 0) (h : exec sem env (fun _ => .skip) fuel p σ = .timeout σ') :
     ∃ k, (run sem env (strip sem lit (labelLines (comp lit (fun _ => 0) p 0 0 0 0)) (comp lit (fun _ => 0) p 0 0 0 0)) k (mk σ 0)).trace = σ'.trace ∧
          (run sem env (strip sem lit (labelLines (comp lit (fun _ => 0) p 0 0 0 0)) (comp lit (fun _ => 0) p 0 0 0 0)) k (mk σ 0)).halted = false := by
-  have hok : ∀ k, (fun _ : Nat => False) k → ProcOk sem lit (fun _ => 0) (fun _ => Stmt.skip) (comp lit (fun _ => 0) p 0 0 0 0) k :=
+  have hok : ∀ k, (fun _ : Nat => False) k → ProcOk sem lo lit (fun _ => 0) (fun _ => Stmt.skip) (comp lit (fun _ => 0) p 0 0 0 0) (fun _ => 0) (fun _ => False) k :=
     fun k hk => hk.elim
-  obtain ⟨k, pc, _, hk⟩ := (sim sem env lit (fun _ => 0) (fun _ => .skip) (comp lit (fun _ => 0) p 0 0 0 0) hlit hof _ hok fuel p hgood 0 0 0 0 σ (mk σ 0)
-    (PV.Props.C01Core.codeAt_self _) (at_mk σ 0)).2 σ' h
+  obtain ⟨k, pc, _, _, _, hk⟩ := (sim sem lo env lit (fun _ => 0) (fun _ => .skip) (comp lit (fun _ => 0) p 0 0 0 0) (fun _ => 0) (fun _ => False) hlit hof hlo hok fuel p
+    (fun _ => False) 0 (fun k hk => hk.elim) hgood 0 0 0 0 σ (mk σ 0) 0 [] (by omega) (PV.Props.C01Core.codeAt_self _) (at_mk sem lo σ 0 hsp)).2 σ' h
   have ht := hk.trace
   have hh := hk.halted
   have h0 : Sim (labelLines (comp lit (fun _ => 0) p 0 0 0 0)) (mk σ 0) (mk σ 0) := ⟨rfl, rfl, rfl, rfl, rfl⟩
-  obtain ⟨k', _, hs⟩ := strip_sim_fwd sem lit _ env (comp lit (fun _ => 0) p 0 0 0 0) (comp_ok sem lit hlit p (good_false_nocall sem p hgood)) k _ _ h0
+  obtain ⟨k', _, hs⟩ := strip_sim_fwd sem lit _ env (comp lit (fun _ => 0) p 0 0 0 0) (comp_ok sem lit hlit p (good_false_nocall sem lo p hgood)) k _ _ h0
   exact ⟨k', by rw [hs.trace, ht], by rw [hs.halted, hh]⟩
 
 /-- **terminating programs, labels removed**: the label-free code reaches the source's final effect trace and stops -/
 theorem compile_correct_done_stripped (sem : Sem V) (env : Env V) (lit : Nat → V) (hlit : ∀ n, sem.toAddr (lit n) = some n)
-    (hof : ∀ n, sem.toAddr (sem.ofNat n) = some n) (p : Stmt V) (hgood : Good sem (fun _ => False) p) (fuel : Nat) (σ σ' : SSt V)
-    (h : exec sem env (fun _ => .skip) fuel p σ = .done σ') :
+    (hof : ∀ n, sem.toAddr (sem.ofNat n) = some n) (lo : Nat) (hlo : lo ≤ stackSize) (p : Stmt V) (hgood : Good sem lo (fun _ => False) p) (fuel : Nat) (σ σ' : SSt V)
+    (hsp : σ.regs Special.sp = sem.ofNat 0) (h : exec sem env (fun _ => .skip) fuel p σ = .done σ') :
     ∃ k, (run sem env (strip sem lit (labelLines (comp lit (fun _ => 0) p 0 0 0 0)) (comp lit (fun _ => 0) p 0 0 0 0)) k (mk σ 0)).trace = σ'.trace ∧
          (run sem env (strip sem lit (labelLines (comp lit (fun _ => 0) p 0 0 0 0)) (comp lit (fun _ => 0) p 0 0 0 0)) k (mk σ 0)).halted = true := by
-  obtain ⟨k, _, hall⟩ := PV.Props.C01Core.compile_correct_done sem env lit hlit hof p hgood fuel σ σ' h
+  obtain ⟨k, _, hall⟩ := PV.Props.C01Core.compile_correct_done sem lo env lit hlit hof hlo p hgood fuel σ σ' hsp h
   obtain ⟨ht, hh⟩ := hall 0
   have h0 : Sim (labelLines (comp lit (fun _ => 0) p 0 0 0 0)) (mk σ 0) (mk σ 0) := ⟨rfl, rfl, rfl, rfl, rfl⟩
-  obtain ⟨k', _, hs⟩ := strip_sim_fwd sem lit _ env (comp lit (fun _ => 0) p 0 0 0 0) (comp_ok sem lit hlit p (good_false_nocall sem p hgood)) (k + (0 + 1)) _ _ h0
+  obtain ⟨k', _, hs⟩ := strip_sim_fwd sem lit _ env (comp lit (fun _ => 0) p 0 0 0 0) (comp_ok sem lit hlit p (good_false_nocall sem lo p hgood)) (k + (0 + 1)) _ _ h0
   exact ⟨k', by rw [hs.trace, ht], by rw [hs.halted, hh]⟩
 
 end PV.Props.C01Strip
